@@ -7,17 +7,20 @@ drv_policy ops (stateful: configurations, objects and one world of connections a
   cfg <id> <7 bits: safe exposed public all get set del> <4 bits: pickle import inst oldstyle> <S-prefix> D | [ S.. S.. ]
   obj <id> plain [ names ]
   obj <id> service [ names ]
-  obj <id> restricted <targetId> [ attrs ] N | [ wattrs ] [ names the view has ]
+  obj <id> restricted <targetId> [ attrs ] N | [ wattrs ] [ names the view has ITSELF ]   (target defined before)
   obj <id> hooked [ names ] <hook> <hook> <hook>        hook = -  |  L <ErrName> [ allowed names ]   (get set del)
   acc <cfgId> <objId> getattr|setattr|delattr|callattr <name>      name = S<cp>,<cp>.. | B<hex> | O
   ctx <cfgId> <objId>                                              _handle_ctxexit
   cmp <cfgId> <typeObjId> <name>                                   _handle_cmp on type(obj)
-  open <i> { key value }*      keys: safe exposed public all get set del pickle import inst oldstyle (T|F),
+  old <cfgId> <objId> <attemptName> <fallbackName> <T|F>           _handle_oldslicing; T: calling the first value raises
+  open <i> classic|plain { key value }*   establish connection i with a literal dict (keys as below)
+                               keys: safe exposed public all get set del pickle import inst oldstyle (T|F),
                                prefix (S..), safelist ([ S.. ])
-  openwith <i> <d>             open connection i with the application's dict object d (its content now)
+  openwith <i> classic|plain <d>           ... with the application's dict OBJECT d (its content now)
   dict <d> { key value }*      the application edits its dict object d (D.update(..))
   setdefault { key value }*    the application edits DEFAULT_CONFIG
-  slave <i> | close <i>
+  growset [ S.. ]              the default safe_attrs set object grows in place
+  close <i>
   wacc <i> <objId> <req> <name>          decision of connection i  (or `none`)
   wcfg <i>                               fresh | live <cfg> | closed <cfg>
   wdflt                                  <cfg>
@@ -31,7 +34,7 @@ open Rpyc Rpyc.Policy
 structure PState where
   cfgs : List (Nat × Config) := []
   objs : List (Nat × Obj) := []
-  world : World := World.init
+  world : HWorld := HWorld.init
 
 def parsePyStr (tok : String) : Option PyStr :=
   match tok.toList with
@@ -111,6 +114,9 @@ def parseCfg (bits7 bits4 pfx : String) (safe : List PyStr) : Option Config :=
            instantiateCustomExc := j, instantiateOldstyleExc := k }
   | _, _, _ => none
 
+/-- run events of the measured variant -/
+def PState.evs (st : PState) (es : List HEvent) : PState := { st with world := hrun Modes.measured st.world es }
+
 def hasOf (names : List PyStr) : PyStr → Bool := fun n => names.contains n
 
 /-- hook spec: `-` or `L <Err> [ names ]`; the hook touches the object itself -/
@@ -122,7 +128,7 @@ def parseHook (self : Nat) (op : Op) : List String → Option (Option Hook × Li
     | _, _ => none
   | _ => none
 
-def parseObj (id : Nat) : List String → Option Obj
+def parseObj (objs : List (Nat × Obj)) (id : Nat) : List String → Option Obj
   | "plain" :: rest => match parseStrList rest with
     | some (names, []) => some (plainObj id (hasOf names))
     | _ => none
@@ -130,13 +136,13 @@ def parseObj (id : Nat) : List String → Option Obj
     | some (names, []) => some (serviceObj id (hasOf names))
     | _ => none
   | "restricted" :: t :: rest =>
-    match parseNatChars t.toList, parseStrList rest with
-    | some target, some (attrs, "N" :: rest') => match parseStrList rest' with
-      | some (vn, []) => some (restrictedView id target attrs none (hasOf vn))
+    match (parseNatChars t.toList).bind (fun k => (List.lookup k objs).map (fun o => (k, o))), parseStrList rest with
+    | some (target, tobj), some (attrs, "N" :: rest') => match parseStrList rest' with
+      | some (vn, []) => some (restrictedView id target attrs none (hasOf vn) tobj.has)
       | _ => none
-    | some target, some (attrs, rest') => match parseStrList rest' with
+    | some (target, tobj), some (attrs, rest') => match parseStrList rest' with
       | some (w, rest'') => match parseStrList rest'' with
-        | some (vn, []) => some (restrictedView id target attrs (some w) (hasOf vn))
+        | some (vn, []) => some (restrictedView id target attrs (some w) (hasOf vn) tobj.has)
         | _ => none
       | none => none
     | _, _ => none
@@ -177,10 +183,21 @@ partial def parseOverlay : List String → Overlay → Option Overlay
       else none
   | _, _ => none
 
-def showConnSt : ConnSt → String
+def showOptCfg : Option Config → String
+  | some c => showCfg c
+  | none => "KeyError"
+
+def showConn (w : HWorld) (i : Nat) : String :=
+  match w.conns i with
   | .fresh => "fresh"
-  | .live c => "live " ++ showCfg c
-  | .closed c => "closed " ++ showCfg c
+  | .live ch => "live " ++ showOptCfg (w.cfgOfChain ch)
+  | .closed ch => "closed " ++ showOptCfg (w.cfgOfChain ch)
+
+/-- literal config dicts are fresh application dict objects nobody else refers to -/
+def literalDict (i : Nat) : Nat := 1000000 + i
+
+def parseClassic (tok : String) : Option Bool :=
+  if tok = "classic" then some true else if tok = "plain" then some false else none
 
 def nat? (s : String) : Option Nat := parseNatChars s.toList
 
@@ -199,7 +216,7 @@ def policyOp (st : PState) : List String → PState × String
     | _, _ => (st, "bad-op")
   | "obj" :: id :: rest =>
     match nat? id with
-    | some i => match parseObj i rest with
+    | some i => match parseObj st.objs i rest with
       | some o => ({ st with objs := (i, o) :: st.objs.filter (·.1 ≠ i) }, "ok")
       | none => (st, "bad-op")
     | none => (st, "bad-op")
@@ -211,43 +228,50 @@ def policyOp (st : PState) : List String → PState × String
     match (nat? c).bind (fun k => List.lookup k st.cfgs), (nat? o).bind (fun k => List.lookup k st.objs) with
     | some cfg, some obj => (st, showRes (handleCtxExit cfg obj))
     | _, _ => (st, "bad-op")
+  | ["old", c, o, a, f, cr] =>
+    match (nat? c).bind (fun k => List.lookup k st.cfgs), (nat? o).bind (fun k => List.lookup k st.objs),
+          parseName a, parseName f, parseBool cr with
+    | some cfg, some obj, some an, some fn, some b => (st, showRes (handleOldSlicing cfg obj an fn b))
+    | _, _, _, _, _ => (st, "bad-op")
   | ["cmp", c, o, n] =>
     match (nat? c).bind (fun k => List.lookup k st.cfgs), (nat? o).bind (fun k => List.lookup k st.objs), parseName n with
     | some cfg, some obj, some nm => (st, showRes (handleCmp cfg obj nm))
     | _, _, _ => (st, "bad-op")
-  | "open" :: i :: rest =>
-    match nat? i, parseOverlay rest {} with
-    | some i, some ov => ({ st with world := step st.world (.open i ov) }, "ok")
-    | _, _ => (st, "bad-op")
-  | ["openwith", i, d] => match nat? i, nat? d with
-    | some i, some d => ({ st with world := step st.world (.openWith i d) }, "ok")
-    | _, _ => (st, "bad-op")
+  | "open" :: i :: k :: rest =>
+    match nat? i, parseClassic k, parseOverlay rest {} with
+    | some i, some classic, some ov =>
+      (st.evs [HEvent.editDict (.app (literalDict i)) ov, HEvent.open i (literalDict i) classic], "ok")
+    | _, _, _ => (st, "bad-op")
+  | ["openwith", i, k, d] => match nat? i, parseClassic k, nat? d with
+    | some i, some classic, some d => (st.evs [HEvent.open i d classic], "ok")
+    | _, _, _ => (st, "bad-op")
   | "dict" :: d :: rest =>
     match nat? d, parseOverlay rest {} with
-    | some d, some ov => ({ st with world := step st.world (.editDict d ov) }, "ok")
+    | some d, some ov => ({ st with world := hstep Modes.measured st.world (.editDict (.app d) ov) }, "ok")
     | _, _ => (st, "bad-op")
   | "setdefault" :: rest =>
     match parseOverlay rest {} with
-    | some ov => ({ st with world := step st.world (.setDefault ov) }, "ok")
+    | some ov => ({ st with world := hstep Modes.measured st.world (.editDict .dflt ov) }, "ok")
     | none => (st, "bad-op")
-  | ["slave", i] => match nat? i with
-    | some i => ({ st with world := step st.world (.slave i) }, "ok")
-    | none => (st, "bad-op")
+  | "growset" :: rest =>
+    match parseStrList rest with
+    | some (names, []) => ({ st with world := hstep Modes.measured st.world (.mutDfltSet names) }, "ok")
+    | _ => (st, "bad-op")
   | ["close", i] => match nat? i with
-    | some i => ({ st with world := step st.world (.close i) }, "ok")
+    | some i => ({ st with world := hstep Modes.measured st.world (.close i) }, "ok")
     | none => (st, "bad-op")
   | ["wacc", i, o, r, n] =>
     match nat? i, (nat? o).bind (fun k => List.lookup k st.objs), parseReq r, parseName n with
     | some i, some obj, some req, some nm =>
-      ({ st with world := step st.world (.access i) },
+      ({ st with world := hstep Modes.measured st.world (.access i) },
        match st.world.decide i obj nm req with
        | some res => showRes res
        | none => "none")
     | _, _, _, _ => (st, "bad-op")
   | ["wcfg", i] => match nat? i with
-    | some i => (st, showConnSt (st.world.conns i))
+    | some i => (st, showConn st.world i)
     | none => (st, "bad-op")
-  | ["wdflt"] => (st, showCfg st.world.dflt)
+  | ["wdflt"] => (st, showOptCfg (st.world.cfgOfChain [.dflt]))
   | _ => (st, "bad-op")
 
 /-- stateful variant of `Driver/Loop.lean` -/
